@@ -67,3 +67,37 @@
     pub(crate) fn dec_direct_stub<R: RangeReader>(_s: &mut RangeDecoder<R>, count: u32) -> i32 {
         crate::vk::ch_get(crate::vk::CH_DIRECT | count) as i32
     }
+
+    // ---------------------------------------------------------------- C05.rc.src: byte fetch of the stream range decoder
+    /// healthy / short-reading / interrupted source: the fetch functions deliver the source's bytes in order; a failing
+    /// source makes try_read_u8 / read_u32_be (used for the 5-byte preamble) return the source's error kind.
+    #[kani::proof]
+    #[kani::unwind(8)]
+    //@ERR
+    fn c05_rc_stream_fetch() {
+        let data: [u8; 6] = vk::any();
+        let mut src = vk::IoAny::<6>::new(data, 6);
+        src.interrupts_left = 1;
+        assert!(RangeReader::read_u8(&mut src) == data[0]);
+        match RangeReader::try_read_u8(&mut src) { Ok(b) => assert!(b == data[1]), Err(_) => assert!(false) }
+        match RangeReader::read_u32_be(&mut src) { Ok(v) => assert!(v == u32::from_be_bytes([data[2], data[3], data[4], data[5]])), Err(_) => assert!(false) }
+        assert!(!RangeReader::is_buffer(&src));
+        let mut bad = vk::IoAny::<6>::new(data, 6);
+        bad.fail_at = 0;
+        match RangeReader::try_read_u8(&mut bad) { Ok(_) => assert!(false), Err(e) => assert!(vk::kind_of(&e) == vk::Kind::Unknown) }
+        let mut short = vk::IoAny::<6>::new(data, 3);
+        match RangeReader::read_u32_be(&mut short) { Ok(_) => assert!(false), Err(e) => assert!(vk::kind_of(&e) == vk::Kind::Eof) }
+    }
+    /// KNOWN FINDING D19: the per-byte fetch used by normalize() during decoding has no error channel: an I/O error (or
+    /// end of input) of the source becomes the data byte 0x00 and leaves no trace, so a reader over a failing source goes
+    /// on decoding zeros instead of returning the source's error.
+    #[kani::proof]
+    #[kani::unwind(8)]
+    //@ERR
+    fn kf_c05_rc_stream_error_becomes_zero_byte() {
+        let data: [u8; 6] = vk::any();
+        let mut bad = vk::IoAny::<6>::new(data, 6);
+        bad.fail_at = 0;
+        let b = RangeReader::read_u8(&mut bad);
+        assert!(!(b == 0 && bad.calls == 1 && bad.pos == 0), "source I/O error converted into a zero data byte by the range decoder's byte fetch");
+    }
